@@ -149,6 +149,9 @@ func (g *dataGen) val(t TRef, depth int, key bool) *Val {
 			return &Val{K: "null"} // nil slice: renders as []
 		}
 		n := g.r.Intn(4)
+		if g.r.Chance(15) {
+			n = 4 + g.r.Intn(2)
+		}
 		if depth >= 3 && n == 0 {
 			n = 2
 		}
@@ -162,9 +165,33 @@ func (g *dataGen) val(t TRef, depth int, key bool) *Val {
 		}
 		v := &Val{K: "list", L: []*Val{}}
 		for i := 0; i < n; i++ {
+			// nil entries anywhere in a list of pointers (also before the non-nil ones)
+			if (t.Elem.K == "obj" && !t.Elem.ByVal || t.Elem.K == "union") && g.r.Chance(28) {
+				v.L = append(v.L, &Val{K: "null"})
+				continue
+			}
 			v.L = append(v.L, g.val(*t.Elem, depth, false))
 		}
 		return v
 	}
 	panic("val " + t.K)
+}
+
+// InjectFailure makes exactly one of the resolver results the query uses fail (results that lie behind
+// a nil list entry are preferred): the query then has one needed failure, at a known response path.
+func InjectFailure(r *vh.Rng, reached []Reached) bool {
+	if len(reached) == 0 {
+		return false
+	}
+	var pool []Reached
+	for _, x := range reached {
+		pool = append(pool, x)
+		if x.AfterNil {
+			pool = append(pool, x, x, x, x, x, x, x, x)
+		}
+	}
+	x := pool[r.Intn(len(pool))]
+	kind := []string{"err", "err", "panic", "wrapsafe", "safe", "wrapped"}[r.Intn(6)]
+	x.Obj.Res[x.Key] = &Outcome{Fail: kind, Msg: fmt.Sprintf("E%d.%s", x.Obj.ID, x.Key)}
+	return true
 }
